@@ -18,7 +18,8 @@ META = {
                  '(Reader.tla) checked exhaustively by TLC for safety and, under fairness of the readers only, '
                  'liveness; TLC-generated interleavings replayed 1:1 on the real goroutines through verif gates, '
                  'every recorded step judged by TLC (trace validation); stress histories of real schedules judged by TLC',
-    'level_text': 'TLC enumerates every interleaving (one step per critical section) of one appender, the cleaner '
+    'level_text': 'TLC enumerates every interleaving (one step per critical section) of one appender (Append step by step, '
+                  'AppendMessageSet - the follower path, also on a read-only log - as one step), the cleaner '
                   'loop\'s split check, HW advances of any step, read-only toggles and two committed readers started '
                   'anywhere (beyond the HW, on an empty log) within small bounds and proves: nothing above the HW is '
                   'delivered, deliveries are a gap-free run from the reader\'s position, the HW is monotone, no reader '
@@ -82,6 +83,30 @@ def _directed():
     # D6: two HW writers at the same time (fast path + commit loop), readers waiting and at the gate
     out.append(APP + APP + APP + [{'a': 'NewReader', 'r': 'r1', 's': 0}] + [S('r1')] * 3 +
                [{'a': 'SetHW2', 'h1': 0, 'h2': 1}] + [S('r1')] * 6 + [{'a': 'SetHW2', 'h1': 2, 'h2': 1}] + [S('r1')] * 6)
+    # D7: a reader reaches waitForHW on a read-only log whose tail is not committed yet (HW < log end): it must
+    #     be registered like on a writable log, is woken when the tail is committed and is told the end afterwards.
+    #     The reader was consuming from an earlier offset / is started at the HW / beyond the HW; the flag is set
+    #     before the reader loads the HW, between load and registration, and notifyReadonly runs after it registered
+    pre = APP + APP + APP + [{'a': 'SetHW', 'h': 1}]
+    tog = [{'a': 'TogBegin', 'b': True}, S('tog')]
+    fin = [{'a': 'SetHW', 'h': 2}] + [S('r1')] * 8
+    out.append(pre + [{'a': 'NewReader', 'r': 'r1', 's': 0}] + [S('r1')] * 3 + tog + [S('r1')] * 3 + fin)
+    for start in (1, 2):
+        out.append(pre + tog + [{'a': 'NewReader', 'r': 'r1', 's': start}] + [S('r1')] * 6 + fin)
+    out.append(pre + [{'a': 'NewReader', 'r': 'r1', 's': 1}] + [S('r1')] * 3 +
+               [{'a': 'TogBegin', 'b': True}, S('r1'), S('tog')] + fin)
+    out.append(pre + tog + [{'a': 'NewReader', 'r': 'r1', 's': 0}, {'a': 'NewReader', 'r': 'r2', 's': 2}] +
+               [S('r1')] * 3 + [S('r2')] * 3 + [S('r1')] * 3 + [{'a': 'SetHW', 'h': 2}] + [S('r2')] * 8 + [S('r1')] * 8)
+    # D8: the log grows while it is read-only (AppendMessageSet: the follower / reconciliation path), readers
+    #     arrive at waitForHW with and without an uncommitted tail, the tail is committed in steps
+    aset = {'a': 'AppSet'}
+    out.append(APP + [{'a': 'SetHW', 'h': 0}] + tog + [aset, {'a': 'NewReader', 'r': 'r1', 's': 0}] + [S('r1')] * 5 +
+               [aset, {'a': 'SetHW', 'h': 1}] + [S('r1')] * 5 + [{'a': 'SetHW', 'h': 2}] + [S('r1')] * 6)
+    out.append(('cap1', APP + tog + [aset, aset, {'a': 'NewReader', 'r': 'r1', 's': 1}, {'a': 'NewReader', 'r': 'r2', 's': 3}] +
+                [S('r1')] * 3 + [S('r2')] * 3 + [{'a': 'SetHW', 'h': 1}] + [S('r1')] * 6 + [aset, {'a': 'SetHW', 'h': 3}] +
+                [S('r2')] * 8 + [S('r1')] * 8))
+    out.append(APP + [{'a': 'SetHW', 'h': 0}, {'a': 'NewReader', 'r': 'r1', 's': 0}] + [S('r1')] * 5 + tog +
+               [aset, aset, {'a': 'SetHW', 'h': 1}] + [S('r1')] * 6 + [{'a': 'SetHW', 'h': 2}] + [S('r1')] * 6)
     res = []
     for i, b in enumerate(out):
         cap = 2
@@ -162,6 +187,13 @@ def features(lines):
                 f.add('roll-while-reading')
             if e['a'] == 'RolBegin' and prev['st']['app']['pc'] in ('chk', 'wr'):
                 f.add('cleaner-roll-vs-append')
+            if e['a'] == 'AppSet' and prev['st']['ro']:
+                f.add('log-grows-while-readonly')
+            if e['a'] == 'Step' and prd.get(e['args'].get('p'), {}).get('pc') == 'gate' and prev['st']['ro']:
+                pst = prev['st']
+                act = pst['segs'][pst['active'] - 1]
+                if pst['hw'] < act['base'] + act['n'] - 1:
+                    f.add('waits-on-readonly-log-with-uncommitted-tail')
         if st['active'] not in st['listed']:
             f.add('split-window')
         if any(r['park'] and r['pc'] != 'none' for r in rds.values()):
@@ -499,7 +531,8 @@ def run(rep, tier, seed, replay):
     rep.cov['trace_lines_validated'] = tr['validated']
     nontrivial = [b for b in behaviours if feats.get(b['id'], set()) & {
         'hw-moves-after-load', 'hw-moves-before-resync', 'readonly-vs-waiter', 'roll-while-reading',
-        'cleaner-roll-vs-append', 'split-window'}]
+        'cleaner-roll-vs-append', 'split-window', 'waits-on-readonly-log-with-uncommitted-tail',
+        'log-grows-while-readonly'}]
     rep.cov['distinct_nontrivial'] = len({core.sha(b['steps']) for b in nontrivial})
     hist = {}
     for f in feats.values():
